@@ -488,7 +488,12 @@ class FieldHeader:
 
     @property
     def disambiguated(self) -> str:
-        return self.raw + "_" if self.raw in utils.RESERVED_NAMES else self.raw
+        # The raw header may be a dotted path; each segment is an attribute
+        # access and needs to be disambiguated on its own.
+        return ".".join(
+            segment + "_" if segment in utils.RESERVED_NAMES else segment
+            for segment in self.raw.split(".")
+        )
 
 
 @dataclasses.dataclass(frozen=True)
